@@ -79,7 +79,7 @@ m = {
  ],
  "checks": checks,
  "not_applicable": [{"property_id": i, "reason": reasons.get(i, "not built")} for i in ids if i not in claimed],
- "notes": "Genuine defects found and repaired are listed in /verif/known_findings.json ('fixed'); see DESIGN.md.",
+ "notes": "Genuine defects found and repaired are listed in /verif/known_findings.json ('fixed'); one recorded finding (JIT 32-bit displacements, C03/C06) is listed under 'findings' and printed as KNOWN-FINDING; see DESIGN.md section 10.",
 }
 if os.path.exists(extra):
     mod.finish(m)
